@@ -26,7 +26,7 @@ SHRINK_LISTS = [('data',)]
 EXPECTED_PROBES = ['unresponsive_seen', 'close_timeout_fired', 'ping_rate_zero',
                    'late_pong', 'close_timeout_disabled', 'ping_lt_poll',
                    'graceful_end', 'jitter', 'data_wakeups', 'ping_windows_checked',
-                   'trickled_frame']
+                   'trickled_frame', 'auto_pong_off']
 
 EPS = 2e-5      # float rounding at a 1.7e9 epoch (2^-22 s) with margin
 
@@ -56,6 +56,7 @@ def make_case(family, i, rng, tier):
                     30 if p >= 1 else p * 12])
     horizon = min(max(20 * p, 6 * (r or p), 4 * (t or 0), 3 * (c or 0)), 900)
     case = {'poll': p, 'ping_rate': r, 'ping_timeout': t, 'close_timeout': c,
+            'auto_pong': rng.random() < 0.7,
             'epoch': rng.choice([0, 1.7e9]), 'horizon': horizon}
     # pong behaviour of the server
     pm = rng.choice(['prompt', 'prompt', 'late', 'never', 'first_k'])
@@ -156,7 +157,8 @@ def build(case):
     sc = {'url': 'ws://example.test/', 'epoch': case.get('epoch', 0),
           'connect': {'poll': p, 'ping_rate': case['ping_rate'],
                       'ping_timeout': case['ping_timeout'],
-                      'close_timeout': case['close_timeout']},
+                      'close_timeout': case['close_timeout'],
+                      'auto_pong': case.get('auto_pong', True)},
           'conns': [conn], 'app': app}
     # generous but finite: a legitimate run wakes up about once per poll
     # interval plus once per arrival; a timer storm must end as a reported
@@ -353,6 +355,8 @@ def execute(case):
         res.stats['probe:data_wakeups'] += 1
     if case.get('trickle'):
         res.stats['probe:trickled_frame'] += 1
+    if not case.get('auto_pong', True):
+        res.stats['probe:auto_pong_off'] += 1
     res.nontrivial = len(polls) >= 3
     res.sig = '%s|%s|%s|%s|%s|%s|%s|%s' % (
         p, r, t, c, case.get('close_mode'), case.get('close_reply'),
